@@ -76,3 +76,23 @@ claim("C02", "model_checking",
       "the kind flags must match, also with permuted declaration order; self / copy / permuted-copy diffs must be empty.",
       "Trusted: the binding of opaque type/default/expression ids to concrete values; the model's feature set bounds what 'every elementary edit' means here.",
       "3 C02")
+claim("C01", "model_checking",
+      "SQLite-specific TLA+ catalogue (SqliteModel.tla): TLC enumerates well-formed (current, desired) pairs over C01's feature list; each is executed on a real SQLite engine through Atlas's driver and TLC evaluates convergence on the independent projection (EngineTrace.tla)",
+      "TLC exports every admissible single edit to and from four seed catalogues (autoincrement, composite and reordered keys, WITHOUT ROWID, STRICT, stored / virtual generated columns, unique / multi-column / descending / partial "
+      "indexes, named / unnamed checks, self / cross foreign keys with all five actions; about 2,000 pairs). For each pair the harness creates the current state on a real SQLite file with its own DDL renderer, re-projects it as a "
+      "self-check, populates it, lets Atlas inspect / diff (normalized) / plan, executes the plan and projects the result with pragmas only; TLC requires after = desired, no failing statement and an empty second diff. A CLI slice repeats "
+      "the flow through `schema apply` / `schema diff` with HCL.",
+      "Trusted: the harness's DDL renderer and pragma projection (self-checked on every start state); SQLite 3.46 of mattn/go-sqlite3; bounded feature grid (2 tables, 3 columns).",
+      "3 C01")
+claim("C05", "exploration",
+      "row semantics of the edit catalogue in SqliteModel.tla; rows of populated SQLite databases read before/after Atlas's plan and compared by TLC (EngineTrace.tla RowsOK)",
+      "For every (current, desired) pair of the C01 corpus the current database is populated (3 rows per table, distinct values, NULLs in nullable columns, valid foreign keys); rows are read with quote() before and after Atlas's plan; TLC "
+      "checks per table that the bag of rows projected on the surviving columns (stored, same name and type) is unchanged, with NULL -> default as the only rewrite when a column becomes NOT NULL. Both the in-place and the rebuild path occur.",
+      "Exploration level: the data grid is one population per state; values compared through quote().",
+      "3 C05")
+claim("C17", "exploration",
+      "up-then-down on a real SQLite engine for every reversible plan of the C01 corpus (EngineTrace.tla UndoRestores), down-file / Reversible-flag consistency through all formatters (PlanFileTrace.tla), catalogue-level up/down for MySQL / PostgreSQL (PlanCatalogTrace.tla)",
+      "When Plan.Reversible holds the reverse statements of the changes are executed in reverse order on the real SQLite file and the independent projection must equal the start state. For the three dialects and six formatters the down section must "
+      "be exactly the flattened reversed reverse statements and Reversible must equal 'every change has reverse statements'. MySQL / PostgreSQL up+down statement lists of all FK-graph scenarios over <= 3 tables are replayed through the catalogue model.",
+      "MySQL / PostgreSQL only at catalogue level (no engine); rows are not compared after a down migration.",
+      "3 C17")
